@@ -536,3 +536,40 @@ def write_reload_script(path, seed, executions):
         for ln in lines:
             f.write(json.dumps(ln) + "\n")
     return len(lines)
+
+
+def write_stopstart_script(path, seed, executions):
+    """Conversations for the socket-layer assumptions of the group manager: correct caches, and the user stopping and
+    starting the socket between and inside exchanges (as rtr_mgr does on every fail-over and fail-back)."""
+    rnd = random.Random(seed * 131 + 17)
+    lines = []
+    for _ in range(executions):
+        c = Cache(rnd, rnd.choice([1, 1, 0]))
+        cfg = {"refresh": "30", "expire": "7200", "retry": "5", "mode": "min_max", "others": [rec4(rnd)], "t0": rnd.randrange(100000)}
+        lines.append({"new": cfg})
+        lines.append({"open": "ok"})
+        for i in range(rnd.randrange(3, 8)):
+            if rnd.random() < 0.5:
+                c.mutate()
+            how = rnd.choice(["plain", "stopstart", "stopstart", "park", "parkcb", "fault"])
+            ex = {"alts": c.alts()}
+            if how == "stopstart":
+                lines.append({"ex": {"stopstart": True}})
+            elif how == "park":
+                for a in ex["alts"]:
+                    p = rnd.randrange(0, len(a["items"]) + 1)
+                    a["items"] = a["items"][:p] + [{"park": "stopstart"}]
+            elif how == "parkcb":
+                ex["parkcb"] = rnd.randrange(1, 4)
+            elif how == "fault":
+                for a in ex["alts"]:
+                    a["items"] = a["items"][:rnd.randrange(0, len(a["items"]) + 1)] + [{"fault": rnd.choice(["err", "closed"])}]
+            lines.append({"ex": ex})
+            lines.append({"open": "ok"})
+        for _ in range(3):
+            lines.append({"ex": {"alts": c.alts()}})
+        lines.append({"run": True})
+    with open(path, "w") as f:
+        for ln in lines:
+            f.write(json.dumps(ln) + "\n")
+    return len(lines)
